@@ -467,6 +467,24 @@ def _resume(plan, inst, ctx):
         raise Violation(prop, 'C11/callback-count/{}'.format(name),
                         '{}: {} callback invocations for niter={} (expected '
                         '{})'.format(name, rec_u.count, N, N * per))
+    if hasattr(inst, 'run_plain'):
+        # "running n+m at once" as a user without interest in resumption
+        # does it: none of the resumption variables passed (seed z11: a
+        # shortcut that is right for the solver's own x_relax and wrong for
+        # a caller-supplied one makes segmented and uninterrupted runs agree
+        # with each other when both pass the variables)
+        st_p, rec_p = _run_recorded(prop, inst, inst.run_plain, N, 'zero',
+                                    ctx, count=False)
+        ctx.step(N)
+        ctx.fired('plain-reference')
+        scale_p = _scale(rec_u.iters, [elem_flat(inst.state0['x'])])
+        d = _maxdiff(elem_flat(st_p['x']), elem_flat(st_u['x']))
+        if d > 1e-12 * scale_p:
+            raise Violation(
+                prop, 'C11/resume-vars-change-iteration/{}'.format(name),
+                '{}: {} iterations with the resumption variables passed in '
+                '(at their initial values) differ from the same call without '
+                'them by {:.3g}; instance {}'.format(name, N, d, inst.tags))
     # segmented run under garbage with crashes
     st = inst.fresh_state()
     rec_all = []
